@@ -66,6 +66,21 @@ check("C17", "exploration",
       "Trusted: serde_json. Floats are restricted to those serde_json reads back exactly from its own output; Rust-side parameters: Some(Null) is excluded (JSON null is the absent optional).",
       "round-trip property testing (all serialiser x deserialiser pairs) with proptest + systematic enumeration", "DESIGN.md §4 C17")
 
+check("C10", "exploration",
+      "For every generated definition (grammar-directed generator with trivia decorator and documentation comments; plus the repository's definitions) EVERY width 0..=200 and {1000, usize::MAX} is formatted: the output must parse, equal the intended structure (name, documentation comment lines, per-kind member order, names, types), be a fixed point of the formatter, equal Display at width 80, and equal the colored rendering with escape sequences stripped (which must contain some). A proptest run with shrinking covers a width subset, and the built `varlink format` tool is compared with the library on a sample.",
+      "Trusted: the harness' generator/decorator (cross-checked against the reference recogniser in C11); the parser is used to read formatted text back, but the expected structure comes from the generator. Widths are complete for 0..=200 only.",
+      "round-trip + idempotence + differential (plain vs colored, library vs CLI) over generated definitions x all widths", "DESIGN.md §4 C10")
+
+check("C11", "exploration",
+      "Differential testing of IDL::try_from against a hand-written recursive-descent reference recogniser: (a) decorated valid texts must be accepted with exactly the intended structure and documentation; (b) every token-level near miss (delete / duplicate / swap / substitute / insert 24 tokens / split a token with a blank) of 120 (quick) / 2000 (thorough) texts; (c) exhaustively every interface name over {a,B,1,-,.} up to length 7 and every type expression up to 5 tokens over 8 constructors (plus blank-infested variants up to 4 of 12); (d) all 511 subsets of the 9 kind x kind name collisions and random multi-duplicates: the error must name every duplicated name.",
+      "Trusted: the reference recogniser (self-checked against the generator on every generated text; disagreement is reported as inconclusive, not as a violation). Placements classified `unspecified` (blanks before a comma, interface without members, comment after blanks on a member's line or ended by EOF) are skipped and counted.",
+      "differential testing vs. reference recogniser; bounded-exhaustive name/type enumeration; mutation-based near misses", "DESIGN.md §4 C11")
+
+check("C12", "exploration",
+      "Totality: every prefix of 67 (quick) / 607 (thorough) definitions, all five line-end re-encodings (+ mixed, + broken in the middle), nesting depth 1..200 of five shapes (+ unbalanced) and arrays to 2000, proptest token soup over all Unicode planes and byte-level mutations of valid definitions; each case under catch_unwind on 8 MiB stacks with an in-process 10 s watchdog inside a journaled child process (an abort or hang is re-run in isolation before it is reported). Diagnostics: reported line is a line of the input, column within it, rendering works and shows the line.",
+      "Trusted: the harness. Nesting beyond the stated depths is outside the quantifier. A hang that does not reproduce in isolation is inconclusive (exit 2).",
+      "property-based robustness testing (generated + mutated inputs) with diagnostic-location oracle; child-process isolation", "DESIGN.md §4 C12")
+
 ALL = ["C%02d" % i for i in range(1, 21)]
 
 NOT_BUILT_REASON = "check not built yet in this round (design in DESIGN.md §4); not claimed until it exists and is validated"
